@@ -58,7 +58,9 @@ def monitor(ctx, pid, focus=None, timeout=1500):
             except ValueError:
                 data = None
         if data is None:
-            rc, data, out = ctx.run_harness_json('srun.py', {'focus': focus, 'witnesses': wit}, timeout=timeout)
+            known = sorted([k.get('property'), k.get('key')] for k in core.load_known()
+                           if k.get('property') in PROPS and k.get('status', 'known') == 'known')
+            rc, data, out = ctx.run_harness_json('srun.py', {'focus': focus, 'witnesses': wit, 'known': known}, timeout=timeout)
             if data is None:
                 return {'error': out[-3000:], 'records': [], 'all_records': [], 'coverage': {}, 'distribution': {}, 'cached': False}
             tmp = path + '.tmp%d' % os.getpid()
